@@ -434,3 +434,40 @@ func (c *Ctx) Finish(info *PropertyInfo, tier string, seed int64, findings []Fin
 
 	return res
 }
+
+// Import evaluates another property's rule set and adopts the obligations of one of its rules
+// (optionally only those whose construct contains `only`) under this property's rule id: a rule that
+// is a necessary condition of two properties is written once.
+func (c *Ctx) Import(from func(*Ctx), srcRule, only, dstRule, engine, doc string, minInstances int) {
+	sub := NewCtx(c.P, c.Prop)
+
+	func() {
+		defer func() {
+			if r := recover(); r != nil {
+				c.Unknown(dstRule, "imported rule "+srcRule, token.NoPos, fmt.Sprintf("analysis panic in the source rule set: %v", r))
+			}
+		}()
+
+		from(sub)
+	}()
+
+	c.Rule(dstRule, engine, doc, minInstances)
+
+	for f := range sub.funcs {
+		c.Touch(f)
+	}
+
+	for _, o := range sub.Obls {
+		if o.Rule != srcRule || (only != "" && !strings.Contains(o.Construct, only)) {
+			continue
+		}
+
+		key := dstRule + "|" + o.Construct
+		c.seenKey[key]++
+
+		no := *o
+		no.Rule = dstRule
+		c.Obls = append(c.Obls, &no)
+		c.ruleIdx[dstRule].Count++
+	}
+}
